@@ -25,7 +25,8 @@ def run(chk):
         "normalising division `T / v` must have v defined as T.norm() and paired with `factor = 1 if normalize else factor * v`; "
         "the loop-carried accumulator of discarded weights must equal acc + x - acc*x as a polynomial with x a squared local "
         "weight and the function return its square root; the local weight uses bitwise_not of the very mask that truncates; "
-        "norm()/get_Schmidt_values()/get_entropy() operate on a shallow copy (write-freedom itself is C15-M1).")
+        "norm()/get_Schmidt_values()/get_entropy() operate on a shallow copy (write-freedom itself is C15-M1)."
+        ' shallow_copy must take over every field set in __init__ that is written again elsewhere (A, pC, factor); the decomposition whose spectrum normalises the discarded weight must be complete (no truncation / partial-svd options).')
     chk.trusted_base = ["python ast parser", "exact rational arithmetic", "C15-M1 for operand immunity"]
     chk.rule("FF4", "a tensor divided by a scalar: the scalar is that tensor's norm and multiplies the factor; normalize resets to 1", floor=10)
     chk.rule("FF5", "discarded weights compose as a + x - a*x (x squared local weight), result square-rooted; same mask", floor=12)
